@@ -120,26 +120,57 @@ Fixpoint insert_key {A} (kv : str * A) (l : list (str * A)) : list (str * A) :=
   end.
 Definition sort_keys {A} (l : list (str * A)) : list (str * A) := fold_right insert_key [] l.
 
+(* ---- positions of the elements of a list ---------------------------------------------- *)
+(* The identifier drops the elements of a list (and the values of a dict) that are configurations
+   flagged as meta-parameters (is_ignored, HashComputer.update / remove_meta): [m; a] with m flagged
+   and [a] are one configuration, one job directory.  The walk numbers every element (l.545-548:
+   list(i) = push(str(i))).  fixes/C17-4.diff: the Sealer numbers the elements that are not flagged
+   0, 1, ... and the flagged ones "__meta__0", "__meta__1", ... apart.
+   metaf n = configuration n is flagged (setmeta(config, True)) AND the tree renumbers; the code
+   before the patch is metaf = fun _ => false: every element counts.                            *)
+Definition k_meta : str := [95; 95; 109; 101; 116; 97; 95; 95].      (* "__meta__" *)
+Definition meta_key (j : nat) : str := k_meta ++ dec j.
+Definition flagged (metaf : nat -> bool) (v : value) : bool :=
+  match v with VRef n => metaf n | _ => false end.
+
+(* the key of each element of a list, i / j = next free number for unflagged / flagged elements *)
+Fixpoint lkeys (metaf : nat -> bool) (i j : nat) (l : list value) : list str :=
+  match l with
+  | [] => []
+  | x :: l' => if flagged metaf x then meta_key j :: lkeys metaf i (S j) l'
+               else dec i :: lkeys metaf (S i) j l'
+  end.
+
 (* Walk.edges_value with the entries of every dict visited in sorted key order
-   (fixes/C17-2.diff: Sealer.dictitems)                                           *)
-Fixpoint edges_value_s (rel : list str) (v : value) : list edge :=
+   (fixes/C17-2.diff: Sealer.dictitems) and the elements of every list placed by lkeys
+   (fixes/C17-4.diff: Sealer.listpositions)                                          *)
+Fixpoint edges_value_m (metaf : nat -> bool) (rel : list str) (v : value) : list edge :=
   match v with
   | VRef n => [(rel, n)]
   | VList l =>
-      (fix go (i : nat) (l : list value) : list edge :=
-         match l with [] => [] | x :: l' => edges_value_s (rel ++ [dec i]) x ++ go (S i) l' end) 0%nat l
+      (fix go (i j : nat) (l : list value) : list edge :=
+         match l with
+         | [] => []
+         | x :: l' =>
+             if flagged metaf x then edges_value_m metaf (rel ++ [meta_key j]) x ++ go i (S j) l'
+             else edges_value_m metaf (rel ++ [dec i]) x ++ go (S i) j l'
+         end) 0%nat 0%nat l
   | VDict l =>
       concat (map snd (sort_keys
         ((fix go (l : list (str * value)) : list (str * list edge) :=
-            match l with [] => [] | (k, x) :: l' => (k, edges_value_s (rel ++ [k]) x) :: go l' end) l)))
+            match l with [] => [] | (k, x) :: l' => (k, edges_value_m metaf (rel ++ [k]) x) :: go l' end) l)))
   | _ => []
   end.
+(* every element counts: the code before fixes/C17-4.diff *)
+Definition no_meta : nat -> bool := fun _ => false.
+Definition edges_value_s : list str -> value -> list edge := edges_value_m no_meta.
 
 (* the edges the Sealer follows (recurse_task = True) *)
-Definition seal_edges (n : nat) (nd : node) : list edge :=
-  flat_map (fun kv => edges_value_s [fst kv] (snd kv)) (fields nd)
+Definition seal_edges_m (metaf : nat -> bool) (n : nat) (nd : node) : list edge :=
+  flat_map (fun kv => edges_value_m metaf [fst kv] (snd kv)) (fields nd)
   ++ edges_tasks k_pre (pre nd) ++ edges_tasks k_init (init nd)
   ++ match task nd with Some t => if Nat.eqb t n then [] else [([], t)] | None => [] end.
+Definition seal_edges : nat -> node -> list edge := seal_edges_m no_meta.
 (* before fixes/C17-2.diff: insertion order of the dict *)
 Definition seal_edges_insertion : nat -> node -> list edge := node_edges true.
 
@@ -197,6 +228,11 @@ Definition norm_node (decls : list (list str)) (idk : nat -> str) (nd : node) : 
   by_pre idk (by_decl decls nd).
 Definition seal_edges_sorted (decls : list (list str)) (idk : nat -> str) (n : nat) (nd : node) : list edge :=
   seal_edges n (norm_node decls idk nd).
+
+(* ... and list elements placed by lkeys (all three repairs) *)
+Definition seal_edges_full (decls : list (list str)) (idk : nat -> str) (metaf : nat -> bool)
+                           (n : nat) (nd : node) : list edge :=
+  seal_edges_m metaf n (norm_node decls idk nd).
 
 (* the same configuration with its pre-tasks added in another order *)
 Definition node_repre (nd nd' : node) : Prop :=
